@@ -41,6 +41,9 @@ class Check(PropertyCheck):
             if _i % 15 == 14:
                 yield slices.zero_first_scenario(rng)
                 continue
+            if _i % 15 == 6:
+                yield slices.stale_ready_scenario(rng)
+                continue
             yield slices.dispatch_scenario(rng, observers=True, with_invalid=True, replay=True, queries=True,
                                            max_jobs=4 if tier == "quick" else 5,
                                            max_ops=4 if tier == "quick" else 6)
